@@ -403,8 +403,12 @@ def getattr_(it, base, attr, node, fr):
             return Indexer(base, attr)
         if attr in ("values", "real", "T") and attr != "T":
             return base
-        m = Method(base, attr)
-        return m
+        u = Unk(call("." + attr, base.term), space=base.space if attr in ("data", "df") else None)
+        u.attr_of = (base, attr)  # called later -> method call on base; used as a value -> attribute
+        for k_ in ("rank",):
+            if attr == "data" and hasattr(base, k_):
+                setattr(u, k_, getattr(base, k_))
+        return u
     if isinstance(base, Filtered):
         if attr == "real":
             return Filtered(base.src, base.gain, base.axes, base.transformed, real=True)
